@@ -1,18 +1,24 @@
 """C45 helpers: source generator for the plan-driven module and the tree enumeration.
 
-One module contains one function per KIND (def, cpdef, cdef, method of a Python class, cpdef method of a cdef class,
-coroutine, generator) plus `root`.  Every function takes a `plan` = (exit, children), children = tuple of
-(kind, mode, subplan): it invokes its children in order (call-site code is inlined in every body, so all call and
-exception paths are generated code of the function itself) and then leaves by `exit` (0 = return, 1 = raise ValueError).
-A call tree is therefore DATA; the same compiled functions are driven through every tree.
+One module contains one function per KIND plus `root`:
+  def, cpdef (called at C level), cdef, method of a Python class, cpdef method of a cdef class, coroutine, generator,
+  nxvoid / nxint (cdef functions WITHOUT error value and exception check: `void` / `int` return, noexcept; an
+  exception raised inside is swallowed and reported as unraisable), pycpdef (the cpdef function called through its
+  Python wrapper), finret (`return` / `raise` inside try/finally whose finally block makes the child calls).
+Every function takes a `plan` = (exit, children), children = tuple of (kind, mode, subplan): it invokes its children in
+order (call-site code is inlined in every body, so all call and exception paths are generated code of the function
+itself) and then leaves by `exit` (0 = return, 1 = raise ValueError).  A call tree is therefore DATA; the same compiled
+functions are driven through every tree.
+module_source(ref=True) is the text CPython runs: identical, except that the two noexcept functions (no CPython
+equivalent) catch their own exception and return.
 """
 import ast, itertools
 
-KINDS = ['def', 'cpdef', 'cdef', 'meth', 'cmeth', 'coro', 'gen']
-K_GEN = 6
+KINDS = ['def', 'cpdef', 'cdef', 'meth', 'cmeth', 'coro', 'gen', 'nxvoid', 'nxint', 'pycpdef', 'finret']
+K_GEN, K_NXVOID, K_NXINT, K_PYCPDEF, K_FINRET = 6, 7, 8, 9, 10
 # modes
-M_PLAIN, M_CAUGHT, M_EXHAUST, M_EXHAUST_CAUGHT, M_CLOSE, M_THROW, M_DROP = range(7)
-MODES = ['plain', 'caught', 'exhaust', 'exhaust-caught', 'close', 'throw-caught', 'drop']
+M_PLAIN, M_CAUGHT, M_EXHAUST, M_EXHAUST_CAUGHT, M_CLOSE, M_THROW, M_DROP, M_YF = range(8)
+MODES = ['plain', 'caught', 'exhaust', 'exhaust-caught', 'close', 'throw-caught', 'drop', 'yield-from']
 
 INVOKE = '''\
 if k == 0:
@@ -25,6 +31,14 @@ elif k == 3:
     OBJ.meth(sub)
 elif k == 4:
     COBJ.cmeth(sub)
+elif k == 7:
+    f_nxvoid(sub)
+elif k == 8:
+    f_nxint(sub)
+elif k == 9:
+    PYCPDEF(sub)
+elif k == 10:
+    f_finret(sub)
 else:
     co = f_coro(sub)
     try:
@@ -64,10 +78,15 @@ elif m == 5:
         g.throw(KeyError)
     except KeyError:
         pass
-else:
+%(yf)selse:
     g = f_gen(sub)
     next(g)
     g = None
+'''
+
+YF = '''\
+elif m == 7:
+    yield from f_gen(sub)
 '''
 
 
@@ -76,11 +95,11 @@ def _indent(text, n):
     return ''.join(pad + l if l.strip() else l for l in text.splitlines(True))
 
 
-def _callsite(n):
-    return _indent(CALLSITE % {'invoke1': _indent(INVOKE, 4), 'invoke2': _indent(INVOKE, 8)}, n)
+def _callsite(n, in_gen=False):
+    return _indent(CALLSITE % {'invoke1': _indent(INVOKE, 4), 'invoke2': _indent(INVOKE, 8), 'yf': YF if in_gen else ''}, n)
 
 
-def module_source():
+def module_source(ref=False):
     body = '''\
     for ch in plan[1]:
 %(cs)s
@@ -88,6 +107,32 @@ def module_source():
         raise ValueError('x')
     return 1
 ''' % {'cs': _callsite(8)}
+    nx_body_ref = '''\
+    try:
+        for ch in plan[1]:
+%(cs)s
+        if plan[0] == 1:
+            raise ValueError('x')
+    except BaseException:
+        pass
+    return %%s
+''' % {'cs': _callsite(12)}
+    nx_body = '''\
+    for ch in plan[1]:
+%(cs)s
+    if plan[0] == 1:
+        raise ValueError('x')
+    return %%s
+''' % {'cs': _callsite(8)}
+    fin_body = '''\
+    try:
+        if plan[0] == 1:
+            raise ValueError('x')
+        return 1
+    finally:
+        for ch in plan[1]:
+%(cs)s
+''' % {'cs': _callsite(12)}
     gen_body = '''\
     i = 0
     for ch in plan[1]:
@@ -98,7 +143,7 @@ def module_source():
         yield 0
     if plan[0] == 1:
         raise ValueError('x')
-''' % {'cs': _callsite(8)}
+''' % {'cs': _callsite(8, in_gen=True)}
     meth_body = _indent(body, 4)
     src = 'import cython\n\n'
     src += 'def f_def(plan):\n' + body + '\n'
@@ -108,7 +153,11 @@ def module_source():
     src += '@cython.cclass\nclass K:\n    @cython.ccall\n    def cmeth(self, plan):\n' + meth_body + '\n'
     src += 'async def f_coro(plan):\n' + body + '\n'
     src += 'def f_gen(plan):\n' + gen_body + '\n'
-    src += 'OBJ = C()\nCOBJ = cython.declare(K, K())\n\n'
+    nb = nx_body_ref if ref else nx_body
+    src += '@cython.cfunc\n@cython.returns(cython.void)\n@cython.exceptval(check=False)\ndef f_nxvoid(plan):\n' + (nb % '') + '\n'
+    src += '@cython.cfunc\n@cython.returns(cython.int)\n@cython.exceptval(check=False)\ndef f_nxint(plan):\n' + (nb % '1') + '\n'
+    src += 'def f_finret(plan):\n' + fin_body + '\n'
+    src += 'OBJ = C()\nCOBJ = cython.declare(K, K())\nPYCPDEF = globals()["f_cpdef"]\n\n'
     src += '''def root(plan):
     try:
         f_def(plan)
@@ -131,12 +180,14 @@ def spans(src):
 
 # ---------------------------------------------------------------------------- trees
 def labels():
-    """All (kind, mode, exit) labels of a non-root node."""
+    """All (kind, mode, exit) labels of a non-root node (mode yield-from only below a generator parent)."""
     out = []
-    for k in range(6):
+    for k in (0, 1, 2, 3, 4, 5, K_PYCPDEF, K_FINRET):
         out += [(k, M_PLAIN, 0), (k, M_PLAIN, 1), (k, M_CAUGHT, 1)]
     out += [(K_GEN, M_EXHAUST, 0), (K_GEN, M_EXHAUST, 1), (K_GEN, M_EXHAUST_CAUGHT, 1), (K_GEN, M_CLOSE, 0),
-            (K_GEN, M_THROW, 0), (K_GEN, M_DROP, 0)]
+            (K_GEN, M_THROW, 0), (K_GEN, M_DROP, 0), (K_GEN, M_YF, 0), (K_GEN, M_YF, 1)]
+    for k in (K_NXVOID, K_NXINT):
+        out += [(k, M_PLAIN, 0), (k, M_PLAIN, 1)]
     return out
 
 
@@ -145,7 +196,6 @@ def shapes(edges):
     if edges == 0:
         return [()]
     out = []
-    # first child subtree uses a edges (plus its own edge), the remaining children use the rest
     for a in range(edges):
         for first in shapes(a):
             for rest in shapes(edges - 1 - a):
@@ -153,28 +203,30 @@ def shapes(edges):
     return out
 
 
-def label_trees(shape, labs):
-    """All labelings of a shape: yields the children tuple ((kind, mode, (exit, children)), ...) of the root."""
+def label_trees(shape, labs, parent_kind=0):
+    """All labelings of a shape: yields the children tuple ((kind, mode, (exit, children)), ...) of a node of parent_kind."""
     if not shape:
         yield ()
         return
     per_child = []
     for ch in shape:
         opts = []
-        for sub in label_trees(ch, labs):
-            for (k, m, e) in labs:
+        for (k, m, e) in labs:
+            if m == M_YF and parent_kind != K_GEN:
+                continue
+            for sub in label_trees(ch, labs, k):
                 opts.append((k, m, (e, sub)))
         per_child.append(opts)
     for combo in itertools.product(*per_child):
         yield combo
 
 
-def all_plans(max_edges, labs=None):
-    """Root plans (exit 0 and 1) for every labelled tree with 1..max_edges edges."""
+def all_plans(max_edges, labs=None, min_edges=1):
+    """Root plans for every labelled tree with min_edges..max_edges edges (the tree root is f_def called by `root`)."""
     labs = labs or labels()
-    for e in range(1, max_edges + 1):
+    for e in range(min_edges, max_edges + 1):
         for sh in shapes(e):
-            for children in label_trees(sh, labs):
+            for children in label_trees(sh, labs, 0):
                 yield (0, children)
 
 
